@@ -12,14 +12,16 @@ TRUSTED = simcheck.TRUSTED_SIM
 
 def run(ctx):
     seen = []
-    simcheck.run_sim_property(ctx, [], lambda r, w: simmon.mon_c12(r, w, seen),
+    seen37 = []
+    simcheck.run_sim_property(ctx, [], lambda r, w: simmon.mon_c12(r, w, seen, seen37),
                               "a task completed after its deadline in a run of a planner that enforces deadlines with exact runtimes", machine=False)
     ctx.cov.setdefault("input_distribution", {})["late_completions_matching_known_finding_F40"] = len(seen)
+    ctx.cov["input_distribution"]["late_completions_matching_known_finding_F37c"] = len(seen37)
     for k in core.load_known():
-        if k.get("status") == "known" and k.get("property") == "C12" and k.get("id") == "F40":
+        if k.get("status") == "known" and k.get("property") == "C12" and k.get("id") in ("F40", "F37c"):
             w = json.load(open(os.path.join(core.ROOT, k["witness"])))
             r = simcommon.run_worlds([w], jobs=1, chunk=1)[0]
-            hits = []
-            simmon.mon_c12(r, w, hits)
-            if hits:
-                ctx.known("F40", k["what_fails"])
+            h40, h37 = [], []
+            simmon.mon_c12(r, w, h40, h37)
+            if (h40 if k["id"] == "F40" else h37):
+                ctx.known(k["id"], k["what_fails"])
